@@ -31,6 +31,8 @@ snap_seed = vlib.snapshot()
 rc_seed, out_seed = run_demo(snap_seed.bin)
 res = {}
 for c in checks:
+    evf = os.path.join(vlib.VERIF, "evidence", c + ".json")
+    saved = open(evf, "rb").read() if os.path.exists(evf) else None
     p = subprocess.run(["./check", c], cwd=vlib.VERIF, env=dict(os.environ, XFEMM_REPO=wt), stdout=subprocess.PIPE, stderr=subprocess.STDOUT,
                        universal_newlines=True, timeout=7200)
     lines = [l for l in p.stdout.split("\n") if l.startswith(("VIOLATION", "KNOWN-FINDING"))]
@@ -38,6 +40,13 @@ for c in checks:
     for rp in sorted(glob.glob(os.path.join(vlib.VERIF, "evidence", "replay", "%s-*.json" % c)))[:3]:
         what.append(json.load(open(rp))["what"][:300])
     res[c] = dict(exit=p.returncode, lines=lines[:6], what=what)
+    # the evidence committed under evidence/ must describe /repo itself: keep the seeded run's beside the patch
+    if os.path.exists(evf):
+        shutil.copy(evf, os.path.join(dst, "evidence-%s-on-seeded-tree.json" % c))
+    if saved is not None:
+        open(evf, "wb").write(saved)
+for w in glob.glob(os.path.join(dst, "work*")):
+    shutil.rmtree(w, ignore_errors=True)
 meta = dict(property=pid, patch="patch.diff", demonstration=demo,
             needs=open(os.path.join(dst, "NOTES.md")).read()[:1500] if os.path.exists(os.path.join(dst, "NOTES.md")) else "",
             demo_on_unchanged_tree=dict(exit=rc_clean, tail=out_clean[-300:]), demo_on_seeded_tree=dict(exit=rc_seed, tail=out_seed[-300:]),
